@@ -192,6 +192,12 @@ def rec_pairs(seed):
             if dt is not np.uint16 or np.all(d >= 0):
                 pair('integer_image_gives_the_same_sums', ap.do_photometry(d.astype(dt), **kw)[0], fa, tol=4)
                 pair('integer_image_gives_the_same_sums', np.asarray(A.aperture_photometry(d.astype(dt), ap, **kw)['aperture_sum']), fa, tol=4)
+        # an error map stored in a small integer dtype (values whose squares exceed its range) gives the same errors as the float map
+        if np.all(np.isfinite(e)) and np.all(e >= 0):
+            dte = [np.uint8, np.uint16, np.int16, np.uint32][seed % 4]
+            ek = np.rint(np.clip(e * {np.uint8: 9.0, np.uint16: 170.0, np.int16: 120.0, np.uint32: 40000.0}[dte], 0, np.iinfo(dte).max))
+            pair('integer_error_map_gives_the_same_errors', np.asarray(ap.do_photometry(d, error=ek.astype(dte), **kw)[1]) / float(ek.max() + 1),
+                 np.asarray(ap.do_photometry(d, error=ek, **kw)[1]) / float(ek.max() + 1), tol=4)
         # linearity
         dd = np.array([[rng.randint(-9, 9) for _ in range(w)] for _ in range(h)], dtype=float)
         fb = ap.do_photometry(dd, **kw)[0]
